@@ -20,6 +20,18 @@ def is_call_to(node, name):
            (isinstance(node, ast.Call) and isinstance(node.func, ast.Name) and node.func.id == name)
 
 
+LIMITED = set()   # bare names of the functions that call set_num_threads themselves (first pass of main)
+
+
+def calls_limited(node):
+    """`self.<m>(...)` with <m> one of the thread-limiting functions: the callee re-captures self._original_num_threads"""
+    for n in ast.walk(node):
+        if isinstance(n, ast.Call) and isinstance(n.func, ast.Attribute) and n.func.attr in LIMITED \
+                and isinstance(n.func.value, ast.Name) and n.func.value.id == "self":
+            return True
+    return False
+
+
 def mentions_threads(node):
     for n in ast.walk(node):
         if is_call_to(n, "set_num_threads") or is_call_to(n, "get_num_threads"):
@@ -82,6 +94,12 @@ def stmt(s):
         if is_self_attr(arg, "n_jobs"):
             return "setT"
         return "unknown"
+    if isinstance(s, (ast.Expr, ast.Assign, ast.AugAssign, ast.AnnAssign)) and calls_limited(s) and not mentions_threads(s):
+        return "callT"
+    if isinstance(s, ast.Return) and s.value is not None and calls_limited(s.value):
+        return seq(["callT", "ret"])
+    if isinstance(s, ast.If) and calls_limited(s.test):
+        return seq(["callT", "(br %s %s)" % (block(s.body), block(s.orelse))])
     if isinstance(s, ast.If):
         body = "(br %s %s)" % (block(s.body), block(s.orelse))
         # attribute loads on self in the test can raise AttributeError only if missing; treat a test
@@ -105,14 +123,14 @@ def stmt(s):
     if isinstance(s, ast.Raise):
         return "raise_"
     if isinstance(s, (ast.For, ast.While, ast.With, ast.AsyncFor, ast.AsyncWith, ast.Match)):
-        if mentions_threads(s) or has_return(s):
+        if mentions_threads(s) or has_return(s) or calls_limited(s):
             return "unknown"
         return "mayRaise"
     if isinstance(s, (ast.FunctionDef, ast.AsyncFunctionDef, ast.ClassDef)):
         return "mayRaise" if s.decorator_list else "skip"
     if isinstance(s, (ast.Pass, ast.Global, ast.Nonlocal)):
         return "skip"
-    if mentions_threads(s):
+    if mentions_threads(s) or calls_limited(s):
         return "unknown"
     if isinstance(s, ast.Assign) and simple(s.value) and all(isinstance(t, ast.Name) or
             (isinstance(t, ast.Attribute) and isinstance(t.value, ast.Name)) for t in s.targets):
@@ -161,6 +179,11 @@ def functions(tree, prefix):
 def main():
     entries = []
     module_level = []
+    LIMITED.clear()
+    for f in sorted(glob.glob(os.path.join(REPO, "pynndescent", "*.py"))):
+        for name, fn in functions(ast.parse(open(f).read()), ""):
+            if any(is_call_to(n, "set_num_threads") for n in ast.walk(fn)):
+                LIMITED.add(name.split(".")[-1])
     for f in sorted(glob.glob(os.path.join(REPO, "pynndescent", "*.py"))):
         mod = os.path.basename(f)[:-3]
         tree = ast.parse(open(f).read())
